@@ -33,9 +33,15 @@ theorem gen_identify_eq (p q : Edge) : identifyEdsIng p q = identify p q := by
 theorem gen_checkConstraint_eq (level : Nat) (e f : Edge) :
     checkConstraintPy level e f = checkConstraint level e f := by
   unfold checkConstraintPy checkConstraint pyLen
-  rw [pyUnion_pySet_eq, pyUnion_norm_eq]
+  rw [pyUnion_pySet_eq, pyUnion_norm_eq] <;> (congr 1; omega)
 
-theorem gen_isAdjacent_eq (e f : Edge) : isAdjacentPy e f = isAdjacent e f := rfl
+theorem gen_isAdjacent_eq (e f : Edge) : isAdjacentPy e f = isAdjacent e f := by
+  unfold isAdjacentPy isAdjacent
+  generalize (e.L == f.L) = a
+  generalize (e.L == f.R) = b
+  generalize (e.R == f.L) = c
+  generalize (e.R == f.R) = d
+  cases a <;> cases b <;> cases c <;> cases d <;> rfl
 
 theorem gen_sortSwaps_eq (p q : Edge) : sorted2Swaps sortEdgeKey p q = keyLt q p := rfl
 
